@@ -10,7 +10,7 @@ for r in rs:
 lines = ["# Seeded changes vs. checks", "",
          "Each change was written by an independent sub-agent (property text + scratch worktree only), re-confirmed here (`meta.json`), and run with",
          "`tools/try_mutant_wt.sh <name> <check>` (patch applied in a scratch worktree of /repo HEAD; /repo itself untouched).", "",
-         f"Evaluated: {n} changes on the 20 claimed properties; " + "; ".join(f"{k}: {v}" for k, v in sorted(cnt.items())) + ".",
+         f"Evaluated: {n} changes (two per property from the first round, four more from a second round on C05, C07, C13, C20; second-round changes for C17 and C19 duplicated C17-a and C19-a) on the 20 claimed properties; " + "; ".join(f"{k}: {v}" for k, v in sorted(cnt.items())) + ".",
          "'caught' = exit 1 with a reproduced VIOLATION of the targeted property; 'missed' = the check passes; 'not decided' = exit 3 / time-out (neither alarm nor pass).", "",
          "| change | breaks | what it does | check | result | clause that fired / why missed |", "|---|---|---|---|---|---|"]
 for r in rs:
